@@ -590,7 +590,7 @@ def admissible(case):
 def run_batch(cases):
     nb = min(C.NPROC, max(1, len(cases)))
     batches = [cases[i::nb] for i in range(nb)]
-    outs = C.run_impl_parallel('c04_impl.py', batches, timeout=150)
+    outs = C.run_impl_parallel('c04_impl.py', batches, timeout=1500)
     results = [None] * len(cases)
     for bi, o in enumerate(outs):
         for k, r in enumerate(o['results']):
